@@ -37,7 +37,7 @@ def generate(run_seed, prop, tier="quick"):
     mode = "owned" if rng.random() < 0.6 else "seed"
     entropy = {"key": rng.randrange(2 ** 40), "steer": rng.choice([0.0, 0.15, 0.4, 0.8]) if mode == "owned" else 0.0,
                "edge": rng.choice([0.0, 0.0, 0.05, 0.2]) if mode == "owned" else 0.0}
-    faults = {f: rng.random() < 0.55 for f in ("abort", "foreign", "clock", "cotenant", "again", "noseed")}
+    faults = {f: rng.random() < 0.55 for f in ("abort", "foreign", "clock", "cotenant", "again", "noseed", "ownparse")}
     ops = []
     seeds = [rng.randrange(10 ** 9) for _ in range(3)]
     n_ops = rng.randint(2, 6)
@@ -56,8 +56,10 @@ def generate(run_seed, prop, tier="quick"):
             ops.append({"op": "clock_jump", "delta": rng.choice([-10 ** 18, -1, 0, 1, 86400 * 10 ** 9, 10 ** 17])})
         elif roll < 0.94 and faults["abort"]:
             ops.append({"op": "cs", "cfg": cfg, "seed": rng.choice(seeds), "abort_at": rng.randint(1, 900)})
-        elif faults["cotenant"]:
+        elif faults["cotenant"] and rng.random() < 0.5:
             ops.append({"op": "co_resolve", "cfg": cfg})
+        elif faults["ownparse"]:
+            ops.append({"op": "own_parse_edit", "cfg": cfg, "how": rng.choice(["rebuild_h", "rebuild_h", "attrs", "clear_bonding"])})
         else:
             ops.append({"op": "cs", "cfg": cfg, "seed": rng.choice(seeds)})
     # make sure at least one seeded op is repeated later in the history
@@ -67,7 +69,7 @@ def generate(run_seed, prop, tier="quick"):
     scenario = {"family": "sampler", "prop": prop, "run_seed": run_seed, "configs": configs, "mode": mode,
                 "entropy": entropy, "ops": ops, "faults_enabled": sorted(k for k, v in faults.items() if v)}
     if prop == "C09":
-        scenario["resolver_items"] = [gen_mol.build_item(rng, kind="atomistic") for _ in range(rng.choice([1, 2]))]
+        scenario["resolver_items"] = [gen_mol.build_item(rng, kind="atomistic", weights=rng.random() < 0.5) for _ in range(rng.choice([1, 2]))]
     return scenario
 
 
@@ -535,6 +537,25 @@ def run_history(scenario, only=None):
             elif kind == "clock_jump":
                 clock.jump(op["delta"])
                 event["out"] = "ok"
+            elif kind == "own_parse_edit":
+                # a user parses the same fragment string for their own purposes and works on the result
+                # (e.g. completes the hydrogens of each fragment with the public helper, as the test-suite does);
+                # graphs obtained from a separate read_fragments call are theirs to modify
+                from cgsmiles.pysmiles_utils import rebuild_h_atoms
+                cfg = sc["configs"][op["cfg"]]
+                own = read_fragments(cfg["string"], all_atom=cfg["all_atom"])
+                for name, graph in own.items():
+                    if op["how"] == "rebuild_h" and cfg["all_atom"]:
+                        rebuild_h_atoms(graph)
+                    elif op["how"] == "attrs":
+                        for node in graph.nodes:
+                            graph.nodes[node]["weight"] = 7.5
+                            graph.nodes[node]["fragname"] = "mine"
+                    else:
+                        for node in graph.nodes:
+                            if graph.nodes[node].get("bonding"):
+                                graph.nodes[node]["bonding"].clear()
+                event["out"] = "ok"
             elif kind == "co_resolve":
                 from cgsmiles.resolve import MoleculeResolver
                 sampler = last_sampler.get(op["cfg"])
@@ -650,6 +671,8 @@ def execute(scenario):
             stats["fault:clock-jump:fired"] = stats.get("fault:clock-jump:fired", 0) + 1
         if ev["op"] == "co_resolve":
             stats["fault:cotenant:fired"] = stats.get("fault:cotenant:fired", 0) + 1
+        if ev["op"] == "own_parse_edit":
+            stats["fault:edit-own-parse:fired"] = stats.get("fault:edit-own-parse:fired", 0) + 1
     if stats.get("entropy_edges"):
         stats["fault:rng-edge:fired"] = stats["entropy_edges"]
     stats["trajectories"] = sorted({ev["traj"] for ev in events if ev.get("traj") and ev.get("steps")})
